@@ -897,11 +897,25 @@ class C05(FaultMonitorMixin, BaseMonitor):
     def __init__(self, sim, k, cfg, res, opts):
         super().__init__(sim, k, cfg, res, opts)
         self.check_next_edit = False
+        self.kept = []          # simulations created earlier in the run (all switched off), oldest first
 
     def next_op(self, i):
         r = self.k.rng("op", i)
         spec = self.sim.spec
         inside = set(S.closure(spec))
+        if self.kept and r.random() < 0.15:
+            # simulations created earlier (possibly before later edits of the baseline), toggled again, several at a
+            # time: "switching the simulated values on and back off any number of times always returns to that baseline"
+            seq, on = [], []
+            for _ in range(r.randint(2, 6)):
+                if on and r.random() < 0.45:
+                    seq.append([on.pop(r.randrange(len(on))), "reset"])
+                else:
+                    x = r.randrange(4)
+                    seq.append([x, "set"])
+                    if x not in on:
+                        on.append(x)
+            return {"op": "toggle_kept", "seq": seq, "i": i}
         if r.random() < 0.5:
             extra, tag = None, None
             x = r.random()
@@ -944,8 +958,55 @@ class C05(FaultMonitorMixin, BaseMonitor):
             raise Violation("C05", oracle, where or {"?"}, f"{what}: " + "; ".join(
                 f"{k_}: {why}" for k_, why in d[:5]) + (f" (+{len(d) - 5} more)" if len(d) > 5 else ""), i, op_kind(op))
 
+    def step_toggle_kept(self, i, op):
+        """Toggle simulations created earlier in the run, possibly several switched on at the same time."""
+        if not self.kept:
+            return "skip"
+        base, pins = identity.snapshot(self.sim.world)
+        on = []
+        for n_, (x, t) in enumerate(op["seq"]):
+            mu = self.kept[x % len(self.kept)]
+            before, pins_ = (base, None) if not on else identity.snapshot(self.sim.world)
+            try:
+                with runner_watchdog():
+                    if t == "set":
+                        mu.set_updated_values()
+                        if mu not in on:
+                            on.append(mu)
+                    else:
+                        mu.reset_values()
+                        if mu in on:
+                            on.remove(mu)
+                self.res.count("toggle_kept:" + t)
+            except Exception as e:
+                if t == "reset":
+                    raise Violation("C05", "toggle_raised", {f"reset:{type(e).__name__}"},
+                                    f"switching an earlier simulation off raised {type(e).__name__}: {str(e)[:160]}",
+                                    i, op_kind(op))
+                # switching on may be refused (the baseline has been edited since, or another simulation is on), but
+                # then nothing may have changed
+                self.res.count("fault:toggle_kept_refused:" + type(e).__name__)
+                self.snapshot_diff(before, i, op, "refused_toggle_changed_model",
+                                   f"switching simulation #{x % len(self.kept)} on raised {type(e).__name__} "
+                                   f"({str(e)[:80]}) with {len(on)} other simulation(s) on")
+            if not on:
+                self.snapshot_diff(base, i, op, "baseline_changed_by_toggles",
+                                   f"after toggles {op['seq'][:n_ + 1]} of earlier simulations (none switched on now)")
+        for mu in reversed(on):
+            try:
+                mu.reset_values()
+            except Exception as e:
+                raise Violation("C05", "toggle_raised", {f"reset:{type(e).__name__}"},
+                                f"switching an earlier simulation off raised {type(e).__name__}: {str(e)[:160]}", i,
+                                op_kind(op))
+        self.snapshot_diff(base, i, op, "baseline_changed_by_toggles",
+                           f"after toggles {op['seq']} of earlier simulations and switching everything off")
+        return "ok"
+
     def step(self, i, op):
         sim = self.sim
+        if op["op"] == "toggle_kept":
+            return self.step_toggle_kept(i, op)
         if op["op"] != "simulate":
             status, ret = self.execute(op)
             if status == "raised":
@@ -1002,6 +1063,7 @@ class C05(FaultMonitorMixin, BaseMonitor):
             mu.reset_values()
             self.snapshot_diff(before, i, op, "baseline_changed_by_toggles", f"after toggles {op['toggles']} + reset")
         self.check_next_edit = True
+        self.kept = (self.kept + [mu])[-4:]
         return "ok"
 
 
@@ -1625,6 +1687,8 @@ def run_mixed_op(mon, i, op):
                 if t == "set":
                     mu.set_updated_values()
                     on = True
+                    if hasattr(mon, "while_simulation_is_on"):
+                        mon.while_simulation_is_on(i, op)
                 else:
                     mu.reset_values()
                     on = False
@@ -2076,7 +2140,19 @@ class C08(BaseMonitor):
         self.res.count("update_orders_checked")
 
     # -- consistency ------------------------------------------------------------------------------
-    def check_graph(self, i, op):
+    def while_simulation_is_on(self, i, op):
+        """'... after any history of edits, simulations and toggles': also with the simulated values switched on."""
+        oracle = "inconsistent_graph_while_simulation_is_on"
+        try:
+            self.check_graph(i, op, oracle=oracle)
+            self.res.count("graph_checked_while_simulation_is_on")
+        except Violation:
+            if oracle in self.opts.get("tolerated_oracles", []):
+                self.res.count("known:" + oracle)
+                return
+            raise
+
+    def check_graph(self, i, op, oracle="inconsistent_graph"):
         sim = self.sim
         names_ = S.closure(sim.spec)
         vals = current_values(sim.world, names_)
@@ -2157,7 +2233,7 @@ class C08(BaseMonitor):
             bad.append((("sys", "to_json"), f"exporting the graph raises {type(e).__name__}: {str(e)[:120]}"))
         self.res.count("graph_nodes_checked", len(vals))
         if bad:
-            raise Violation("C08", "inconsistent_graph", self.where_of(bad), self.fmt(sorted(set(bad))), i, op_kind(op))
+            raise Violation("C08", oracle, self.where_of(bad), self.fmt(sorted(set(bad))), i, op_kind(op))
 
 
 MONITORS["C08"] = C08
